@@ -138,6 +138,7 @@ func (d *Data) initMemoryDB(versions []string) error {
 			if err := d.loadMemDB(v, mdb); err != nil {
 				return err
 			}
+			d.initFieldTimes(mdb)
 			dbs.static[uuid] = mdb
 		}
 	}
